@@ -41,7 +41,8 @@ pub fn tables(schema: &[&'static str], maxrows: usize, side: i64) -> Vec<Tbl> {
 pub const LAYOUTS: [(&str, &str); 5] = [("u64", "u64"), ("u8", "f64"), ("string", "u64"), ("bool", "string"), ("f64", "u8")];
 
 fn spell(kind: &str, v: i64) -> String {
-  match kind { "string" => format!("\"s{}\"", v), "bool" => (if v == 1 { "true" } else { "false" }).to_string(), "f64" => format!("{}.5", v), _ => v.to_string() }
+  // u8 payloads must fit the kind: 100, 200, 300 are written as 101, 102, 103 (and decoded back in `observed`)
+  match kind { "string" => format!("\"s{}\"", v), "bool" => (if v == 1 { "true" } else { "false" }).to_string(), "f64" => format!("{}.5", v), "u8" if v >= 100 => (100 + v / 100).to_string(), _ => v.to_string() }
 }
 
 pub fn literal(t: &Tbl) -> String { literal_in(t, LAYOUTS[0]) }
@@ -102,6 +103,7 @@ fn observed(c: &Canon) -> Option<(Vec<(String, String)>, Vec<Row>, usize)> {
         // decode the cell spellings of every layout back to the integer the generator wrote
         let v = match r.get(i) {
           Some(Canon::Num(k, t)) if k == "f64" => t.parse::<f64>().ok().map(|x| if x.fract() == 0.5 { x.floor() as i64 } else { i64::MIN }),
+          Some(Canon::Num(k, t)) if k == "u8" => t.parse::<i64>().ok().map(|x| if x > 100 { (x - 100) * 100 } else { x }),
           Some(Canon::Num(_, t)) => t.parse::<i64>().ok(),
           Some(Canon::Str(t)) => t.strip_prefix('s').and_then(|x| x.parse::<i64>().ok()).or(Some(i64::MIN)),
           Some(Canon::Bool(b)) => Some(if *b { 1 } else { 2 }),
